@@ -709,6 +709,19 @@ impl World {
     }
 
     pub fn parse_policy(&mut self, pol: &PolArg) -> Option<AccessPolicy> {
+        if let Pol::Raw(inner) = &pol.ast {
+            fn build(p: &Pol) -> AccessPolicy {
+                match p {
+                    Pol::All => AccessPolicy::Broadcast,
+                    Pol::Term(d, a) => AccessPolicy::Term(cosmian_cover_crypt::QualifiedAttribute::new(d, a)),
+                    Pol::And(l, r) => AccessPolicy::Conjunction(Box::new(build(l)), Box::new(build(r))),
+                    Pol::Or(l, r) => AccessPolicy::Disjunction(Box::new(build(l)), Box::new(build(r))),
+                    Pol::Raw(p) => build(p),
+                }
+            }
+            self.stats.probe("policy-built-from-constructors");
+            return Some(build(inner));
+        }
         match guard(|| AccessPolicy::parse(&pol.text)) {
             Ok(Ok(ap)) => Some(ap),
             _ => {
